@@ -56,8 +56,8 @@ def gen_transactions(r, n, with_24=True):
         kind = r.choice(["plain", "query+answer", "query+noframe", "query+timeout", "query+error", "query+interrupted", "twice", "twice-single",
                          "twice-different", "twice+backward", "twice+noframe", "edt+ext", "edt+ext-other", "edt+plain", "edt+gap+ext",
                          "dev-query", "dev-twice", "event", "event-di", "unknown16", "unknown24", "stray-backward",
-                         "twice-lookalike24"])
-        if not with_24 and kind in ("dev-query", "dev-twice", "event", "event-di", "unknown24", "twice-lookalike24"):
+                         "twice-lookalike24", "edt+24bit+ext"])
+        if not with_24 and kind in ("dev-query", "dev-twice", "event", "event-di", "unknown24", "twice-lookalike24", "edt+24bit+ext"):
             kind = "plain"
         S, L = 0.05, 0.5
         g0 = r.choice([S, L])
@@ -92,6 +92,16 @@ def gen_transactions(r, n, with_24=True):
             tx = [(g0, "F", 16, tf), (0.012, "B", 8, v)]
         elif kind == "twice+noframe":
             tx = [(g0, "F", 16, tf), (0.03, "N", 0, 0)]
+        elif kind == "edt+24bit+ext":
+            # a 24-bit frame (event or device command) between ENABLE DEVICE TYPE and the extended opcode uses the enable up
+            dt = r.choice([6, 8])
+            ext = led.QueryGearType(a) if dt == 6 else colour.QueryColourStatus(a)
+            mid = pb.ButtonPressed(instance_number=r.randrange(32)).frame.as_integer if r.random() < 0.5 else \
+                dg.IdentifyDevice(da).frame.as_integer
+            tx = [(g0, "F", 16, 0xC100 + dt), (0.03, "F", 24, mid)]
+            if r.random() < 0.5 and (mid >> 16) & 1:
+                tx.append((0.03, "F", 24, mid))          # the device command's repeat
+            tx += [(0.04, "F", 16, ext.frame.as_integer), (0.03, "N", 0, 0)]
         elif kind in ("edt+ext", "edt+ext-other", "edt+plain", "edt+gap+ext"):
             dt = r.choice([6, 8])
             ext = (led.QueryGearType(a) if dt == 6 else colour.QueryColourStatus(a)) if r.random() < 0.6 else \
